@@ -47,3 +47,51 @@ def closed_interval_sites(repo, rep, rule):
                                                                "max((lr.end_timeforlrinlive_ranges.lrs))+1", "max((lr.end_timeforlrinself.lrs))+1"),
                           rule, f"ethosu/vela/{mname}.py:{m.qualname_of(fn)}", "nr_time_slots = 1 + max(end_time)", norm(node.value))
     return n
+
+
+ROUND_POINTS = [0.0, 0.25, 0.5, 0.75, 1.0, 1.5, 2.5, 3.5, 4.5, 1073741824.5, 1073741825.5]
+
+
+def round_half_away(repo, rep, rule):
+    """numeric_util.round_away_zero is the single rounding primitive behind quantise_scale, the LUT generators and
+    quantise_float32. Its rounding mode is a property of the function's shape: it touches its argument only through
+    a sign test, +-0.5 and an integer-part primitive, so its behaviour on ties decides it. The function is interpreted
+    (own interpreter, numpy rounding primitives modelled) on ties and non-ties of both signs; the result must be
+    C++ std::round, i.e. half away from zero (half-even `round`/`np.round`/`np.rint` differ on 0.5, 2.5, 4.5)."""
+    import math
+
+    from ..absint import Interp, Unknown
+    from ..core import AnalysisError
+
+    nu = repo.mod("numeric_util")
+    site = "ethosu/vela/numeric_util.py:round_away_zero"
+
+    def lift(fn):
+        def ext(interp, args, kwargs, node):
+            if len(args) != 1 or not isinstance(args[0], (int, float)) or kwargs:
+                return Unknown("rounding-primitive(?)")
+            return float(fn(args[0]))
+        return ext
+
+    half_even = lift(lambda x: round(x))
+    externs = {
+        "np.trunc": lift(math.trunc), "numpy.trunc": lift(math.trunc), "math.trunc": lift(math.trunc), "np.fix": lift(math.trunc),
+        "np.floor": lift(math.floor), "math.floor": lift(math.floor), "np.ceil": lift(math.ceil), "math.ceil": lift(math.ceil),
+        "np.round": half_even, "np.rint": half_even, "np.around": half_even, "round": half_even,
+        "np.sign": lift(lambda x: (x > 0) - (x < 0)), "np.abs": lift(abs), "np.fabs": lift(abs), "math.fabs": lift(abs), "abs": lift(abs),
+        "int": lift(int), "float": lift(float), "np.float64": lift(float), "np.double": lift(float),
+    }
+    externs.update({"numpy." + k[3:]: v for k, v in externs.items() if k.startswith("np.")})
+    it = Interp(repo, nu, externs=externs)
+    wrong = []
+    n = 0
+    for x in [s * v for v in ROUND_POINTS for s in (1.0, -1.0)]:
+        ps = list(it.run("round_away_zero", lambda: ([x], {})))
+        if len(ps) != 1 or ps[0].kind != "return" or not isinstance(ps[0].value, (int, float)) or isinstance(ps[0].value, bool):
+            raise AnalysisError(f"round_away_zero not evaluable on {x}: {[(p.kind, p.value) for p in ps]} (unmodelled primitive?)")
+        want = math.copysign(math.floor(abs(x) + 0.5), x)
+        n += 1
+        if float(ps[0].value) != want:
+            wrong.append((x, ps[0].value, want))
+    rep.check(not wrong, rule, site, f"rounds half away from zero on all {n} probe points (ties and non-ties of both signs)",
+              "; ".join(f"round_away_zero({x}) = {g}, std::round gives {w}" for x, g, w in wrong[:4]))
